@@ -386,6 +386,15 @@ def rule_read_gated(ctx):
         parent = get_fn(facts, "nucleo", fn.b["root"])
         cr = [c for c in closure_creations(parent) if c[3] == fn.path]
         if not cr:
+            # created inside another closure of the same function (e.g. the closure of an `and_then` on the non-null pointer)
+            for ob in facts.bodies_of("nucleo"):
+                if ob.get("root") == fn.b["root"] and ob["path"] != fn.path and ob.get("kind") == "Closure":
+                    of = fn_of(ob)
+                    cr = [c for c in closure_creations(of) if c[3] == fn.path]
+                    if cr:
+                        parent = of
+                        break
+        if not cr:
             raise Inconclusive("closure creation for %s not found" % fn.path)
         cbi, csi, clocal, cpath, caps = cr[0]
         cons = closure_consumer(parent, clocal)
@@ -416,6 +425,25 @@ def rule_read_gated(ctx):
         for gbi, sb, vals, e in guards_of(parent, tb):
             if e[0] == "call" and isinstance(e[1], str) and e[1].endswith("::is_null") and vals == [0]:
                 gated_null = True
+            if e[0] == "discr" and any(x[0] == "call" and str(x[1]).endswith("NonNull::<T>::new") for x in walk(e)):
+                # `NonNull::new(p)` matched on Some (discriminant 1), or `NonNull::new(p)?` continuing (ControlFlow::Continue = 0)
+                through_try = any(x[0] == "call" and str(x[1]).endswith("Try>::branch") for x in walk(e))
+                if vals == ([0] if through_try else [1]):
+                    gated_null = True
+        if not gated_null and parent.b.get("kind") == "Closure":
+            # the creating closure is itself the function of and_then / map / .. on `NonNull::new(p)`: it only runs for non-null p
+            for ob in facts.bodies_of("nucleo"):
+                if ob.get("root", ob["path"]) != parent.b.get("root") or ob["path"] == parent.path:
+                    continue
+                of = fn_of(ob)
+                for c2 in closure_creations(of):
+                    if c2[3] != parent.path:
+                        continue
+                    cons2 = closure_consumer(of, c2[2])
+                    if cons2 and callee(cons2[1]).rsplit("::", 1)[-1] in ("and_then", "map", "map_or", "is_some_and", "map_or_else") and "Option" in callee(cons2[1]):
+                        recv = peel(of.expr_of_operand(cons2[1]["args"][0]))
+                        if recv[0] == "call" and str(recv[1]).endswith("NonNull::<T>::new"):
+                            gated_null = True
         if not gated_null:
             ctx.violation(key + "|null", site(parent, tb), "entry dereferenced without the `entries.is_null()` check on this path")
             continue
